@@ -782,6 +782,12 @@ func (e *effEngine) callEffects(fn *ssa.Function, site ssa.CallInstruction, lock
 		}
 	}
 	// function literals handed to the callee are assumed to be invoked.
+	// (*sync.Once).Do runs its argument at most once, synchronised with every
+	// other Do of the same Once: such writes are not races.
+	once := false
+	if sc := common.StaticCallee(); sc != nil && sc.Name() == "Do" && sc.Signature.Recv() != nil && sc.Signature.Recv().Type().String() == "*sync.Once" {
+		once = true
+	}
 	for _, a := range common.Args {
 		if mc, ok := a.(*ssa.MakeClosure); ok {
 			cl := mc.Fn.(*ssa.Function)
@@ -789,7 +795,7 @@ func (e *effEngine) callEffects(fn *ssa.Function, site ssa.CallInstruction, lock
 				e.summarize(cl)
 			}
 			for _, ce := range e.summaries[cl] {
-				e.mapEffect(fn, site, cl, ce, nil, locked, mc)
+				e.mapEffect(fn, site, cl, ce, nil, locked || once, mc)
 			}
 		}
 	}
@@ -850,6 +856,15 @@ func (e *effEngine) mapEffect(fn *ssa.Function, site ssa.CallInstruction, callee
 		}
 		b := mc.Bindings[ce.root.idx]
 		ai := e.info(b, map[ssa.Value]bool{})
+		// a captured local variable is bound by the address of its cell: what
+		// the closure reaches through it is what was stored into the cell
+		if al, ok := b.(*ssa.Alloc); ok {
+			for _, ref := range *al.Referrers() {
+				if st, ok := ref.(*ssa.Store); ok && st.Addr == ssa.Value(al) {
+					ai.merge(e.info(st.Val, map[ssa.Value]bool{}))
+				}
+			}
+		}
 		for _, r := range ai.roots {
 			o := out
 			o.root = r
